@@ -70,7 +70,8 @@ func EnumCase(path, in string, data interface{}, enum interface{}, caseSensitive
 				// Attempt comparison after type conversion. Only a lossless conversion counts:
 				// 1.5 is not the integer 1, the integer 65 is not the string "A".
 				converted := expectedValue.Convert(actualType)
-				if converted.CanConvert(expectedValue.Type()) &&
+				if isNegativeNumber(converted) == isNegativeNumber(expectedValue) && // -1 is not the unsigned 18446744073709551615
+					converted.CanConvert(expectedValue.Type()) &&
 					reflect.DeepEqual(converted.Convert(expectedValue.Type()).Interface(), data) &&
 					reflect.DeepEqual(converted.Interface(), enumValue) {
 					return nil
@@ -82,6 +83,18 @@ func EnumCase(path, in string, data interface{}, enum interface{}, caseSensitive
 		values = append(values, enumValue)
 	}
 	return errors.EnumFail(path, in, data, values)
+}
+
+// isNegativeNumber tells whether a value of a numeric kind is below zero (false for any other kind).
+func isNegativeNumber(v reflect.Value) bool {
+	switch v.Kind() { //nolint:exhaustive
+	case reflect.Int, reflect.Int8, reflect.Int16, reflect.Int32, reflect.Int64:
+		return v.Int() < 0
+	case reflect.Float32, reflect.Float64:
+		return v.Float() < 0
+	default:
+		return false
+	}
 }
 
 // convertEnumCaseStringKind converts interface if it is kind of string and case insensitivity is set
